@@ -291,14 +291,16 @@ def gen_inputs(rng, n, k):
 def _big_stack():
     """the extracted interpreters recurse deeply on long runs: give the driver process an unlimited stack"""
     import resource
+    want = 1 << 30          # 1 GiB: deep enough for every sane case, small enough that a runaway recursion dies quickly
     try:
-        resource.setrlimit(resource.RLIMIT_STACK, (resource.RLIM_INFINITY, resource.RLIM_INFINITY))
+        soft, hard = resource.getrlimit(resource.RLIMIT_STACK)
+        lim = want if hard == resource.RLIM_INFINITY else min(want, hard)
+        resource.setrlimit(resource.RLIMIT_STACK, (lim, hard))
     except (ValueError, OSError):
-        try:
-            soft, hard = resource.getrlimit(resource.RLIMIT_STACK)
-            resource.setrlimit(resource.RLIMIT_STACK, (hard, hard))
-        except (ValueError, OSError):
-            pass
+        pass
+
+
+MODEL_CHUNK_TIMEOUT_S = 240      # a chunk of 400 cases takes a few seconds; a case that runs away is discarded and counted
 
 
 def _run_model_chunk(exe, lines):
@@ -307,8 +309,15 @@ def _run_model_chunk(exe, lines):
     res = []
     todo = list(lines)
     while todo:
-        pr = subprocess.run([exe], input="\n".join(todo) + "\n", stdout=subprocess.PIPE, stderr=subprocess.PIPE, text=True, timeout=3000,
-                            preexec_fn=_big_stack)
+        try:
+            pr = subprocess.run([exe], input="\n".join(todo) + "\n", stdout=subprocess.PIPE, stderr=subprocess.PIPE, text=True,
+                                timeout=MODEL_CHUNK_TIMEOUT_S, preexec_fn=_big_stack)
+            stdout, stderr, rc = pr.stdout, pr.stderr, pr.returncode
+        except subprocess.TimeoutExpired as ex:
+            stdout = ex.stdout.decode(errors="replace") if isinstance(ex.stdout, bytes) else (ex.stdout or "")
+            stderr, rc = "timeout: the extracted interpreter did not answer a case within the chunk's time limit", 124
+        class _P: pass
+        pr = _P(); pr.stdout, pr.stderr, pr.returncode = stdout, stderr, rc
         out = [l for l in pr.stdout.split("\n") if l]
         good = []
         for l in out:
